@@ -247,6 +247,9 @@ class HistoryModel:
             self._register(op.get("env", "E"), op["dags"], op.get("flip_async", False))
             ex = Expect("raises" if any(v == "raise" for ps in (op.get("pauses") or {}).values() for v in ps.values()) else "none")
             ex.raises = ("InjectedError",)
+            if op.get("expect_raise"):
+                ex = Expect("raises")
+                ex.raises = tuple(op["expect_raise"])
             self.expect[key] = ex
         elif k == "call":
             self.expect[key] = self._call_expect(key, op["inst"], [lit(a) for a in op["args"]])
@@ -267,8 +270,10 @@ class HistoryModel:
                 ex.raises = ("ValueError",)
                 info["invalid"] = True
             else:
-                ex = Expect("any")
+                ex = Expect("graph")
                 ex.selected = {n[1] for n in S if n[0] == "s"}
+                ex.inst = op["inst"]
+                ex.debug_on = self.debug_on
             self.expect[key] = ex
         elif k == "exrun":
             info = self.execs.get(op["ex"])
